@@ -10,6 +10,7 @@ package symex
 import (
 	"go/types"
 	"reflect"
+	"strconv"
 	"strings"
 )
 
@@ -96,6 +97,17 @@ func init() {
 						n = n*10 + int64(c-'0')
 					}
 					v[k] = mkInt(b.Kind(), uint64(n))
+				case isBasic && b.Info()&types.IsFloat != 0:
+					// yaml -> json -> float64: the decimal text rounded to the nearest float
+					f, err := strconv.ParseFloat(sv, 64)
+					if err != nil {
+						return nil, false
+					}
+					if b.Kind() == types.Float32 {
+						v[k] = float32(f)
+					} else {
+						v[k] = f
+					}
 				default:
 					return nil, false
 				}
